@@ -4,6 +4,7 @@ import (
 	"fmt"
 	"io"
 	"sort"
+	"strconv"
 
 	"go.pennock.tech/tabular"
 	"go.pennock.tech/tabular/auto"
@@ -11,6 +12,7 @@ import (
 	"go.pennock.tech/tabular/html"
 	tjson "go.pennock.tech/tabular/json"
 	"go.pennock.tech/tabular/markdown"
+	"go.pennock.tech/tabular/properties/align"
 	"go.pennock.tech/tabular/texttable"
 	"go.pennock.tech/tabular/texttable/decoration"
 )
@@ -141,8 +143,88 @@ func (w *world) execRender2(op M) bool {
 	case "measure":
 		w.lastRes = M{"metrics": obsMetrics(op)}
 		return true
+	case "within":
+		// decoration.WidthString.WithinWidth / WithinWidthAligned
+		ws := decoration.WidthString{S: opStr(op, "s"), W: opInt(op, "w")}
+		var out string
+		switch opStr(op, "align") {
+		case "none":
+			out = ws.WithinWidth(opInt(op, "avail"))
+		case "left":
+			out = ws.WithinWidthAligned(opInt(op, "avail"), align.Left)
+		case "right":
+			out = ws.WithinWidthAligned(opInt(op, "avail"), align.Right)
+		case "centre":
+			out = ws.WithinWidthAligned(opInt(op, "avail"), align.Center)
+		default:
+			derr("within: alignment %v", op["align"])
+		}
+		w.lastRes = M{"within": out}
+		return true
+	case "emitter":
+		// decoration.Decoration.ForColumnWidths: the rule lines and one header / body content line
+		var d decoration.Decoration
+		if _, ok := op["custom"]; ok {
+			d = customDecoration(opMap(op, "custom"))
+		} else {
+			d = decoration.Named(opStr(op, "name"))
+		}
+		op["dec"] = decorObs(d)
+		var widths []int
+		for _, x := range opList(op, "widths") {
+			widths = append(widths, jsonInt(x))
+		}
+		var cells []decoration.WidthString
+		for _, x := range opList(op, "cells") {
+			c := x.([]interface{})
+			cells = append(cells, decoration.WidthString{S: c[0].(string), W: jsonInt(c[1])})
+		}
+		var aligns []align.Alignment
+		for _, x := range opList(op, "aligns") {
+			switch x {
+			case "left":
+				aligns = append(aligns, align.Left)
+			case "right":
+				aligns = append(aligns, align.Right)
+			case "centre":
+				aligns = append(aligns, align.Center)
+			default:
+				derr("emitter: alignment %v", x)
+			}
+		}
+		e := d.ForColumnWidths(widths)
+		w.lastRes = M{"emitter": M{"HeaderTop": e.LineHeaderTop(), "HeaderBodySep": e.LineHeaderBodySep(), "BodyTop": e.LineBodyTop(),
+			"Bottom": e.LineBottom(), "Separator": e.LineSeparator(),
+			"HeaderLine": e.HeaderLineRendered(cells, aligns), "BodyLine": e.BodyLineRendered(cells, aligns)}}
+		return true
+	case "rowlines":
+		// TextTable.RowToLinesOfWidthStrings for one row of the wrapper's table (after a render measured it)
+		wr := w.wrapperOf(opInt(op, "w"))
+		tt, ok := wr.rt.(*texttable.TextTable)
+		if !ok {
+			derr("rowlines on %s wrapper", wr.kind)
+		}
+		lines := tt.RowToLinesOfWidthStrings(w.row(opInt(op, "r")).Cells(), tt.NColumns())
+		ol := make([]interface{}, len(lines))
+		for i, ln := range lines {
+			cl := make([]interface{}, len(ln))
+			for j, x := range ln {
+				cl[j] = []interface{}{x.S, x.W}
+			}
+			ol[i] = cl
+		}
+		w.lastRes = M{"rowlines": ol}
+		return true
 	}
 	return false
+}
+
+func jsonInt(x interface{}) int {
+	n, err := strconv.Atoi(fmt.Sprint(x))
+	if err != nil {
+		derr("not an integer: %v", x)
+	}
+	return n
 }
 
 func (w *world) observeMore(obs M, facets map[string]bool, op M) {}
